@@ -128,6 +128,18 @@ def gen_variant(r, trig):
         host_line = hline(r, 'Host', bad_hostname(r) + r.pick(['', '', ':80']))
         need = F_HOSTH_INVALID
         headers.append(hline(r, 'Content-Length', str(len(body))))
+    # the form of the request target is orthogonal to every trigger that is not about the target's host: origin-form,
+    # absolute-form naming the same host as the Host field, and (for the missing-Host trigger) a CONNECT authority
+    if trig not in ('host_mismatch', 'host_mismatch_port', 'hostu_invalid') and target.startswith('/'):
+        form = r.randrange(10)
+        if form < 3:
+            target = 'http://' + host + target
+        elif form == 3 and trig == 'host_missing':
+            method = 'CONNECT'
+            target = host.split(':')[0] + ':443'
+            headers = []
+            wire_body = b''
+    exp['target_form'] = 'connect' if method == 'CONNECT' else ('absolute' if target.startswith('http://') else 'origin')
     # other headers around
     others = []
     used = set()
@@ -196,7 +208,7 @@ def shard(args):
             errs.append(('no_tx', 'no transaction'))
         else:
             if (t['flags'] & exp['need']) != exp['need']:
-                errs.append(('missing_indicator:' + exp['trigger'], 'flags 0x%x lack 0x%x for trigger %s (%s delivery)' % (t['flags'], exp['need'], exp['trigger'], cname)))
+                errs.append(('missing_indicator:' + exp['trigger'], 'flags 0x%x lack 0x%x for trigger %s (%s-form target, %s delivery)' % (t['flags'], exp['need'], exp['trigger'], exp.get('target_form'), cname)))
             if exp['chunked']:
                 if t['req_tc'] != 3:
                     errs.append(('not_chunked:' + exp['trigger'], 'request_transfer_coding %d, chunked expected' % t['req_tc']))
